@@ -831,6 +831,28 @@ func checkNear(c NearCase) error {
 		}
 		eqAB, eqBA, eqAA, lenB = a.Equal(b), b.Equal(a), a.Equal(a.Clone()), b.Len()
 	}
+	// The same values given to the constructor in another order and with some
+	// of them twice must make the same set.
+	args := slices.Clone(vals)
+	slices.Reverse(args)
+	args = append(args, vals[:min(len(vals), 1+at%7)]...)
+	if c.Impl == "sorted-int" {
+		viaNew, viaAdd := container.NewSortedSliceSet(args...), container.NewSortedSliceSet[int]()
+		for _, v := range args {
+			viaAdd.Add(v)
+		}
+		if !viaNew.Equal(viaAdd) || !viaAdd.Equal(viaNew) || viaNew.Len() != c.N || !slices.Equal(viaNew.Values(), vals) {
+			return fmt.Errorf("NewSortedSliceSet with %d arguments (%d distinct values, some twice): Len() = %d, Equal(the set built with Add) = %v / %v, Values() = %v; want the %d distinct values in ascending order", len(args), c.N, viaNew.Len(), viaNew.Equal(viaAdd), viaAdd.Equal(viaNew), clip(viaNew.Values()), c.N)
+		}
+	} else {
+		viaNew, viaAdd := container.NewMapSet(args...), container.NewMapSet[int]()
+		for _, v := range args {
+			viaAdd.Add(v)
+		}
+		if !viaNew.Equal(viaAdd) || !viaAdd.Equal(viaNew) || viaNew.Len() != c.N {
+			return fmt.Errorf("NewMapSet with %d arguments (%d distinct values, some twice): Len() = %d, Equal(the set built with Add) = %v / %v", len(args), c.N, viaNew.Len(), viaNew.Equal(viaAdd), viaAdd.Equal(viaNew))
+		}
+	}
 	want := c.Mode == 0 || (c.N == 0 && c.Mode == 2) // (removing from the empty set changes nothing)
 	if eqAB != want || eqBA != want || !eqAA {
 		return fmt.Errorf("%s: a = {0, 2, ..., %d} (%d values), b = a with mode %d at sorted position %d (%d values): a.Equal(b) = %v, b.Equal(a) = %v, want %v; a.Equal(clone of a) = %v, want true", c.Impl, 2*(c.N-1), c.N, c.Mode, at, lenB, eqAB, eqBA, want, eqAA)
@@ -842,6 +864,13 @@ func checkNear(c NearCase) error {
 	vp.NonTrivialStr("c11.set-near", fmt.Sprint(c))
 	vp.Sample("near", c)
 	return nil
+}
+
+func clip(v []int) []int {
+	if len(v) > 80 {
+		return v[:80]
+	}
+	return v
 }
 
 var nearProp = vp.Register(vp.Prop[NearCase]{
